@@ -772,10 +772,24 @@ class GraphBuilder(BuilderBase):
 
         self.add_node(node)
         self._root._functions[function.identifier()] = function
+        self._register_called_functions(function)
 
         if len(node.outputs) == 0:
             return ()
         return node.outputs if len(node.outputs) > 1 else node.outputs[0]
+
+    def _register_called_functions(self, function: ir.Function) -> None:
+        """Register the script functions called (transitively) by *function*.
+
+        Calls of other functions inside a function body stay function-call nodes, so
+        the model needs their definitions as well.
+        """
+        get_called_functions = getattr(function, "get_called_functions", None)
+        if get_called_functions is None:
+            return
+        for callee in get_called_functions().values():
+            callee_ir = callee.function_ir
+            self._root._functions.setdefault(callee_ir.identifier(), callee_ir)
 
     def call_inline(
         self,
@@ -817,6 +831,9 @@ class GraphBuilder(BuilderBase):
             ]
         else:
             desired_output_names = []
+
+        # Calls of other functions in the inlined body stay call nodes.
+        self._register_called_functions(function_ir)
 
         if _prefix:
             self.push_module(_prefix)
